@@ -1408,7 +1408,13 @@ func (c *Conn) readLine() (string, error) {
 		}
 	}
 
+	c.lineLimitReader.timeoutErr = nil
 	line, err := c.text.ReadLine()
+	if err == nil && c.lineLimitReader.timeoutErr != nil {
+		// bufio hands out what it has of an unfinished line and drops the
+		// error: the idle timeout must not turn half a line into a command.
+		return "", c.lineLimitReader.timeoutErr
+	}
 	if err == nil && c.lineLimitReader.LineLimit > 0 && c.lineLimitReader.curLineLength > c.lineLimitReader.LineLimit {
 		// bufio hands out what it has buffered of a too long line before it
 		// reports the error.
